@@ -101,6 +101,15 @@ def fam_job(fam, mask, H, W, ys=None, xs=None, **kw):
         mode, dtype, lst = "crop", "int64", [1]
         kw = dict(kw, table=[2 ** 53, 2 ** 53 + 1, 2 ** 53 + 2])
         cell = lambda r, c, k: 1 if k else alt(r, c, 0, 2)
+    # ---- the same on UINT64 rasters: KNOWN FINDING - numba compares uint64 with the int64 list values in float64
+    elif fam == "trim_u64_neighbours":
+        dtype, lst = "uint64", [1]
+        kw = dict(kw, table=[2 ** 53 - 1, 2 ** 53, 2 ** 53 + 1, 2 ** 53 + 2])
+        cell = lambda r, c, k: alt(r, c, 2, 0) if k else 1
+    elif fam == "crop_u64_neighbours":
+        mode, dtype, lst = "crop", "uint64", [1]
+        kw = dict(kw, table=[2 ** 53, 2 ** 53 + 1, 2 ** 53 + 2])
+        cell = lambda r, c, k: 1 if k else alt(r, c, 0, 2)
     else:
         raise ValueError(fam)
     data = [[cell(r, c, mask[r][c]) for c in range(W)] for r in range(H)]
@@ -178,6 +187,36 @@ def random_jobs(rng, n):
     return jobs
 
 
+KNOWN_U64 = {"trim": "trim:uint64-above-2^53-compared-through-float64",
+             "crop": "crop:uint64-above-2^53-compared-through-float64"}
+
+
+def u64_jobs():
+    """A handful of uint64 rasters with values above 2**53 (known finding): every mask of 1x3 and 2x2 plus three
+    placements on 3x3 (centre, corner, edge), for trim(values=[2**53]) and crop(zones_ids=[2**53 + 1])."""
+    jobs = []
+    place = [[[0, 0, 0], [0, 1, 0], [0, 0, 0]], [[1, 0, 0], [0, 0, 0], [0, 0, 0]], [[0, 1, 0], [0, 0, 0], [0, 0, 0]],
+             [[0, 0, 0], [0, 0, 0], [0, 0, 1]]]
+    for fam in ("trim_u64_neighbours", "crop_u64_neighbours"):
+        for (H, W) in ((1, 3), (2, 2)):
+            for mask in all_masks(H, W):
+                jobs.append(mark_proper(fam_job(fam, mask, H, W), mask))
+        for mask in place:
+            jobs.append(mark_proper(fam_job(fam, mask, 3, 3), mask))
+    return jobs
+
+
+def collides_through_float64(case):
+    """uint64 raster AND some cell / listed value above 2**53 whose float64 rounding equals that of another value
+    of the case (cells and list)"""
+    j = case["job"]
+    t = j.get("table")
+    if j.get("dtype") != "uint64" or not t:
+        return False
+    used = {t[c] for row in case["data"] for c in row} | {t[c] for c in case["list"]}
+    return any(a != b and a > 2 ** 53 and float(a) == float(b) for a in used for b in used)
+
+
 def digest(*parts):
     return hashlib.md5(json.dumps(parts).encode()).hexdigest()[:14]
 
@@ -187,6 +226,8 @@ def strip(case):
 
 
 def key_of(case, clause):
+    if collides_through_float64(case):
+        return KNOWN_U64[case["mode"]]
     nan_listed = NAN in case["list"] and any(NAN in row for row in case["data"])
     if case["mode"] == "trim" and nan_listed and clause in ("window_not_minimal", "window_is_not_the_bounding_box"):
         # `e == val` never matches NaN: a listed NaN is never excluded
@@ -218,6 +259,8 @@ class Tally:
                           "%s %dx%d %s list=%s -> window %dx%d" % (case["tag"], H, W, case["job"]["dtype"],
                                                                    case["list"], o["h"], o["w"]))
             dr = ctx.judge_extra.get(i)
+            if dr and dr.startswith("drift") and collides_through_float64(case):
+                dr = None       # known finding: the compiled scan compares through float64, the model does not
             if dr and dr.startswith("drift"):
                 self.drifts += 1
                 if self.drifts <= 3:
@@ -227,14 +270,17 @@ class Tally:
     def viol(self, key, clause, case, what):
         n = self.by_key.get(key, 0)
         self.by_key[key] = n + 1
-        if n < self.per_key:
+        if n < self.per_key or key in self.ctx.known:
             self.ctx.violation(key, clause, {k: case[k] for k in case if k != "job"} | {"job": case["job"]}, what)
 
     def finish(self):
         self.ctx.extra["violating_cases_by_key"] = dict(self.by_key)
         self.ctx.extra["drift_cases"] = self.drifts
         for k, n in sorted(self.by_key.items()):
-            self.ctx.note("%d cases violate with key %s (first %d saved for replay)" % (n, k, min(n, self.per_key)))
+            if k in self.ctx.known:
+                self.ctx.note("%d cases hit the known finding %s" % (n, k))
+            else:
+                self.ctx.note("%d cases violate with key %s (first %d saved for replay)" % (n, k, min(n, self.per_key)))
         if self.drifts > 3:
             self.ctx.report_drift("... %d cases in total disagree with the scan model" % self.drifts)
 
@@ -374,6 +420,9 @@ def run(ctx):
         total += len(chunk)
         replay_chunk(ctx, chunk, "replay_masks_%d" % (part + 1), tally, sample=(part == 0))
     ctx.note("R: %d cases (every kept-mask of the listed grids x value encodings)" % total)
+
+    # known finding, exercised deliberately: uint64 rasters with values above 2**53
+    observe(ctx, u64_jobs(), "uint64_above_2p53", tally, "R", parallel=1)
 
     # ------------------------------------------------------------------ T: seeded larger rasters
     jobs = random_jobs(rng, ctx.pick(200, 4000))
